@@ -55,6 +55,7 @@ inductive Op where
   | header (code : Int)      -- c.Writer().WriteHeader(code)
   | body                     -- c.Writer().Write(non-empty)
   | setLoc (v : Bytes)       -- c.Writer().Header().Set("Location", v)
+  | flush                    -- c.Writer().FlushError(): commits the pending header first
   | panic
 deriving DecidableEq, Repr
 
@@ -76,6 +77,9 @@ def stepOp (s : HState) : Op → HState
     if s.written then { s with events := s.events ++ ["b"] }
     else { s with written := true, events := s.events ++ ["h" ++ toString s.status, "b"] }
   | .setLoc v => { s with loc := v }
+  | .flush =>
+    if s.written then { s with events := s.events ++ ["f"] }
+    else { s with written := true, events := s.events ++ ["h" ++ toString s.status, "f"] }
   | .panic => { s with panicked := true }
 
 /-- run a handler body; nothing after a panic executes -/
